@@ -239,6 +239,8 @@ pub fn dispatch(n: usize, df: Df, pre: &[u8], ri: usize, srw: &ASrw, choices: &s
         64 => arf_line::<64>(df, pre, ri, srw, choices, maxcalls, w),
         96 => arf_line::<96>(df, pre, ri, srw, choices, maxcalls, w),
         128 => arf_line::<128>(df, pre, ri, srw, choices, maxcalls, w),
+        300 => arf_line::<300>(df, pre, ri, srw, choices, maxcalls, w),
+        512 => arf_line::<512>(df, pre, ri, srw, choices, maxcalls, w),
         _ => false,
     }
 }
@@ -392,7 +394,48 @@ pub fn run(mode: &str, thorough: bool, seed: u64, w: &mut impl std::io::Write) {
             n += 1;
         }
     }
-    eprintln!("STAT arf mode={} scenarios={} exhaustive_stream_len={} sizes={:?} long_frame_scenarios={}", mode, n, maxlen, sizes, lcases);
+    // every error kind std::io knows, at the first / a later reader poll, with a Pending before it
+    for kind in 2u8..=38 {
+        for at in [0usize, 1, 2] {
+            let mut v = vec![RAct::Data(2, false), RAct::Pending, RAct::Data(3, false), RAct::Data(1, false)];
+            v.insert(at, RAct::Err(kind));
+            let srw = ASrw::new(1, b"ab\ncd\n", v);
+            if dispatch(8, Df::Line, &[], 0, &srw, if cancel { "c" } else { "r" }, 10, w) {
+                n += 1;
+            }
+        }
+    }
+    // long runs: hundreds of reader polls inside ONE future (counters that wrap, cooperative-yield budgets), without any
+    // Pending from the reader, with a Pending every so often, all resumed / all cancelled
+    let mut ln = 0usize;
+    for (size, fl) in [(300usize, 280usize), (512, 299), (512, 260)] {
+        for df in [Df::Line, Df::Crlf] {
+            let term: &[u8] = match df { Df::Crlf => b"\r\n", _ => b"\n" };
+            let mut data: Vec<u8> = (0..fl).map(|j| b'a' + (j % 26) as u8).collect();
+            data.extend_from_slice(term);
+            data.extend_from_slice(b"tail");
+            data.extend_from_slice(term);
+            for every in [0usize, 50, 7] {
+                let mut racts: Vec<RAct> = vec![];
+                let mut np = 0;
+                for i in 0..data.len() {
+                    if every > 0 && i % every == every - 1 {
+                        racts.push(RAct::Pending);
+                        np += 1;
+                    }
+                    racts.push(RAct::Data(1, false));
+                }
+                let srw = ASrw::new(1, &data, racts);
+                // enough choices for spurious pending points too
+                let ch: String = std::iter::repeat(if cancel { 'c' } else { 'r' }).take(np + 8).collect();
+                if dispatch(size, df, &[], 0, &srw, &ch, np + 16, w) {
+                    n += 1;
+                    ln += 1;
+                }
+            }
+        }
+    }
+    eprintln!("STAT arf mode={} scenarios={} exhaustive_stream_len={} sizes={:?} long_frame_scenarios={} long_run_scenarios={}", mode, n, maxlen, sizes, lcases, ln);
 }
 
 pub fn replay_line(l: &str, w: &mut impl std::io::Write) -> bool {
